@@ -120,7 +120,7 @@ def check_bounded_reads(ck):
                 okc = isinstance(sz, ast.Constant) and type(sz.value) is int and sz.value <= 65536
                 okm = isinstance(sz, ast.Call) and isinstance(sz.func, ast.Name) and sz.func.id == "min" and any(q.dotted(a) == "self.params.chunk_size" or (isinstance(a, ast.Constant) and type(a.value) is int) for a in sz.args)
                 ck.ob(R, f, c, okc or okm, "read_bytes asks for at most params.chunk_size (or a constant) bytes at a time")
-    ck.floor(R, n, 6, "stream reads in http1connection.py")
+    ck.floor(R, n, 4, "stream reads in http1connection.py")
     p = ck.func(H1, "HTTP1ConnectionParameters.__init__")
     for attr, floor in (("max_header_size", 1), ("chunk_size", 1)):
         sts = [st for st in q.walk_body(p.node) if isinstance(st, ast.Assign) and "self." + attr in q.assigned_paths(st)]
@@ -403,9 +403,14 @@ def check_fresh_limit(ck, LIVE, gz_limits):
     ck.floor(R2, len(sts), 1, "initialisation of %s" % LIVE)
     for st in sts:
         v = st.value
-        ok = isinstance(v, ast.IfExp) and q.dotted(v.body) == "self.params.max_body_size" and q.dotted(v.orelse) == "self.stream.max_buffer_size"
-        ok = ok or (isinstance(v, ast.BoolOp) and isinstance(v.op, ast.Or) and q.dotted(v.values[0]) in ("self.params.max_body_size", "params.max_body_size"))
-        ck.ob(R2, ci, st, ok, "the connection limit starts from params.max_body_size (default: the stream's max_buffer_size)")
+        CFGD = ("self.params.max_body_size", "params.max_body_size")
+        ok = False
+        if isinstance(v, ast.IfExp) and isinstance(v.test, ast.Compare) and len(v.test.ops) == 1 and q.is_const(v.test.comparators[0], None) and q.dotted(v.test.left) in CFGD:
+            if isinstance(v.test.ops[0], ast.IsNot):
+                ok = q.dotted(v.body) in CFGD and q.dotted(v.orelse) == "self.stream.max_buffer_size"
+            elif isinstance(v.test.ops[0], ast.Is):
+                ok = q.dotted(v.orelse) in CFGD and q.dotted(v.body) == "self.stream.max_buffer_size"
+        ck.ob(R2, ci, st, ok, "the connection limit is params.max_body_size whenever that is not None — tested with 'is None', not truthiness: 0 is a legal limit — else the stream's max_buffer_size")
     # nobody compares body sizes with the stale configuration value
     n = 0
     for f in repo.module(H1).funcs.values():
@@ -435,6 +440,11 @@ def check_wiring(ck):
         for k, src in want.items():
             v = q.kwarg(c, k)
             ck.ob(R, fi, c, v is not None and q.dotted(v) == src, "HTTPServer passes its %s as HTTP1ConnectionParameters.%s" % (src, k), construct="%s=%s" % (k, src))
+    tcp = [c for c in q.calls(fi.node) if q.dotted(c.func) == "TCPServer.__init__"]
+    ck.floor(R, len(tcp), 1, "TCPServer.__init__ calls in HTTPServer.initialize")
+    for c in tcp:
+        v = q.kwarg(c, "max_buffer_size")
+        ck.ob(R, fi, c, v is not None and q.dotted(v) == "max_buffer_size", "HTTPServer passes its max_buffer_size to the stream factory (TCPServer)", construct="max_buffer_size=max_buffer_size")
     hs = ck.func(HS, "HTTPServer.handle_stream")
     cc = [c for c in q.calls(hs.node) if q.call_attr(c) == "HTTP1ServerConnection"]
     ck.floor(R, len(cc), 1, "HTTP1ServerConnection constructions")
@@ -468,6 +478,7 @@ def run(ck):
     ck.rule("C04.content-length-limit", "the fixed-length reader runs only after Content-Length <= the live body limit; above it HTTPInputError")
     ck.rule("C04.chunked-total-limit", "chunk data is read/delivered only after the cumulative declared size <= the live body limit; above it HTTPInputError")
     ck.rule("C04.decompressed-limit", "inflated data is forwarded only after the cumulative decompressed size <= limit; decompress is bounded; above it HTTPInputError")
+    ck.rule("C04.body-byte-count", "no more bytes are read and delivered than the admitted length: data reads are bounded by, and decrement by exactly len(received), the owed count")
     ck.rule("C04.fresh-limit", "limits are read from the connection's live field (written by set_max_body_size) at use time: no by-value copy taken before headers_received, no params.max_body_size comparisons, one connection per request")
     ck.rule("C04.params-wired", "HTTPServer's max_header_size/max_body_size/chunk_size/decompress_request reach HTTP1ConnectionParameters and every connection unchanged")
     LIVE = live_limit(ck)
@@ -476,6 +487,10 @@ def run(ck):
     check_content_length(ck, LIVE)
     check_chunked(ck, LIVE)
     gz = check_gzip(ck, LIVE)
+    from . import c01 as _c01
+    _c01.check_counted_reads(ck, ck.func(H1, "HTTP1Connection._read_fixed_body"), set(), RP="C04")
+    lens = {st.targets[0].id for st in q.walk_body(ck.func(H1, "HTTP1Connection._read_chunked_body").node) if isinstance(st, ast.Assign) and isinstance(st.targets[0], ast.Name) and isinstance(st.value, ast.Call) and q.call_attr(st.value) in ("parse_hex_int", "int")}
+    _c01.check_counted_reads(ck, ck.func(H1, "HTTP1Connection._read_chunked_body"), lens, RP="C04")
     check_fresh_limit(ck, LIVE, gz)
     check_wiring(ck)
 
@@ -498,6 +513,17 @@ def _hoist_conn(root):
                         if isinstance(s2, ast.Assign) and "HTTP1Connection(" in ast.unparse(s2):
                             node.body.insert(i, st.body.pop(j))
                             return True
+    return False
+
+
+def _dec_under_if(root):
+    """move `bytes_to_read -= len(chunk)` under the delivery condition"""
+    for node in ast.walk(root):
+        if isinstance(node, ast.While):
+            for i, st in enumerate(node.body):
+                if isinstance(st, ast.AugAssign) and isinstance(st.op, ast.Sub) and i + 1 < len(node.body) and isinstance(node.body[i + 1], ast.If):
+                    node.body[i + 1].body.insert(0, node.body.pop(i))
+                    return True
     return False
 
 
@@ -574,6 +600,10 @@ MUTANTS = [
     ("_find_read_pos: not-found path not checked (endless header block buffered)", _m(IO, "BaseIOStream._find_read_pos", remove_stmts(lambda st: _u(st) == "self._check_max_bytes(self._read_regex, self._read_buffer_size)")), "C04.max-bytes-enforced"),
     ("read_until_regex forgets to record max_bytes", _m(IO, "BaseIOStream.read_until_regex", remove_stmts(lambda st: isinstance(st, ast.Assign) and "_read_max_bytes" in _u(st))), "C04.max-bytes-enforced"),
     ("_check_max_bytes off by a factor (size > 2*max)", _m(IO, "BaseIOStream._check_max_bytes", replace_expr(lambda n: isinstance(n, ast.Compare) and _u(n) == "size > self._read_max_bytes", lambda n: parse_expr("size > 2 * self._read_max_bytes"))), "C04.max-bytes-enforced"),
+    ("configured limit applied by truthiness (max_body_size=0 falls back to max_buffer_size)", _m(H1, "HTTP1Connection.__init__", replace_expr(lambda n: isinstance(n, ast.IfExp) and "max_body_size" in _u(n), lambda n: parse_expr("self.params.max_body_size or self.stream.max_buffer_size"))), "C04.fresh-limit"),
+    ("fixed body: owed count decremented by less than received (more than Content-Length delivered)", _m(H1, "HTTP1Connection._read_fixed_body", replace_stmt(lambda st: isinstance(st, ast.AugAssign), lambda st: [parse_stmt("content_length -= len(body) // 2")])), "C04.body-byte-count"),
+    ("chunk data: owed count not decremented on the diverted (write-finished) path", _m(H1, RCB, _dec_under_if), "C04.body-byte-count"),
+    ("HTTPServer does not pass max_buffer_size to the streams", _m(HS, "HTTPServer.initialize", replace_expr(lambda n: isinstance(n, ast.keyword) and n.arg == "max_buffer_size", lambda n: ast.keyword(arg="max_buffer_size", value=ast.Constant(value=None)))), "C04.params-wired"),
     ("HTTPServer passes max_buffer_size as the body limit", _m(HS, "HTTPServer.initialize", replace_expr(lambda n: isinstance(n, ast.keyword) and n.arg == "max_body_size", lambda n: ast.keyword(arg="max_body_size", value=parse_expr("max_buffer_size")))), "C04.params-wired"),
     ("connection object (and a per-request override) reused across requests", _m(H1, "HTTP1ServerConnection._server_request_loop", _hoist_conn), "C04.fresh-limit"),
 ]
